@@ -344,7 +344,7 @@ def gen_lifecycle(rng, i):
     return "life%d %s" % (i, " ".join(ops)), {"kind": "lifecycle", "ncomp": ncomp}
 
 
-def run_sim(chk, cases, oracle, what, timeout=1500, leaks=False, compare=True):
+def run_sim(chk, cases, oracle, what, timeout=1500, leaks=False, compare=True, token="READY"):
     """compare=True runs every scenario twice (two processes) and demands identical traces: a determinism check of the simulator."""
     sim, o = build_sim()
     if not sim:
@@ -360,7 +360,7 @@ def run_sim(chk, cases, oracle, what, timeout=1500, leaks=False, compare=True):
         m = dict(metas.get(line.split()[0], {})); m["_out"] = out
         return oracle(line, evs, m)
     vlib.correspond(chk, [(l, metas[l.split()[0]].get("kind", "sim")) for l in lines], sim, sim, oracle=orc, what=what,
-                    nontrivial=lambda l, o_: o_ is not None and "READY" in o_, timeout=timeout, compare=compare,
+                    nontrivial=lambda l, o_: o_ is not None and token in o_, timeout=timeout, compare=compare,
                     env=dict({"ASAN_OPTIONS": "detect_leaks=%d:abort_on_error=0" % (1 if leaks else 0), "G_SLICE": "always-malloc"},
                              **({"SIM_LEAKCHECK": "1", "LSAN_OPTIONS": "max_leaks=4"} if leaks else {})))
 
@@ -747,6 +747,10 @@ def gen_gather(rng, i):
     nip = rng.choice([1, 1, 2])
     ips = tuple("10.0.%d.%d" % (rng.randrange(0, 4), k + 1) for k in range(nip))
     ncomp = rng.choice([1, 2])
+    v6 = rng.random() < 0.25
+    if v6:
+        # an IPv6 (ULA) address beside, or instead of, the IPv4 ones; the STUN server is then reached over IPv6
+        ips = (ips if rng.random() < 0.6 else ()) + tuple("fd00:%d::%d" % (rng.randrange(1, 5), k + 1) for k in range(rng.choice([1, 1, 2])))
     ops = ["seed,%d" % rng.randrange(1, 1 << 30), "agent,0,0,1,0,%s" % ",".join(ips), "stream,0,%d" % ncomp]
     drop = rng.choice([0, 0, 0, 0.2, 0.4])
     ops.append("net,%s,%s,%d,%d,3" % (drop, rng.choice([0, 0.2]), rng.choice([1, 10]), rng.choice([10, 60, 150])))
@@ -756,8 +760,11 @@ def gen_gather(rng, i):
     if stun and "late" in stun and drop:
         stun = "nat"      # a 1.5 s late answer only beats the 2 s transaction timeout when it answers the first transmission
     servers = []
+    stun_ip = "10.9.0.1"
+    if stun and v6:
+        stun = rng.choice(["sameip", "sameip", "ok", "silent", "garbage", "wrongtid", "err400", "err500"]); stun_ip = "fd00:9::1"
     if stun:
-        ops += ["server,10.9.0.1,3478,%s" % stun, "stun,0,10.9.0.1,3478"]
+        ops += ["server,%s,3478,%s" % (stun_ip, stun), "stun,0,%s,3478" % stun_ip]
         if stun == "err300":
             ops += ["server,10.9.0.1,%d,%s" % (3479 + k, rng.choice(["err300", "nat"])) for k in range(3)]
     turns = [rng.choice(TURN_MODES) for _ in range(rng.choice([0, 0, 1, 1, 2, 3]))]
@@ -789,7 +796,7 @@ def gen_gather(rng, i):
                 ops.append("relay,0,1,%d,10.9.%d.1,3478" % (c, k + 1))
         turns2.append(m)
         ops += ["run,20000"] + ["localcands,0,1,%d" % c for c in range(1, ncomp + 1)]
-    return "gath%d %s" % (i, " ".join(ops)), {"kind": "gather", "ncomp": ncomp, "ips": ips, "stun": stun, "turns": turns, "turns2": turns2, "again": again}
+    return "gath%d %s" % (i, " ".join(ops)), {"kind": "gather", "ncomp": ncomp, "ips": ips, "stun": stun, "turns": turns, "turns2": turns2, "again": again, "stun_v6": bool(stun and v6)}
 
 
 def oracle_gather(evs, meta):
@@ -800,6 +807,9 @@ def oracle_gather(evs, meta):
         late_relay = [e for e in evs if e.kind == "api" and e.f[1] == "set_relay_info" and e.t > first_done]
         if late_relay:
             gathers.append(late_relay[0])       # one more discovery round, started by the first late set_relay_info
+    # relay servers are IPv4: with IPv6 local addresses only, a late set_relay_info has nothing to discover and each call is a
+    # (zero-item) gathering run of its own that completes at once
+    n_late = len(late_relay) if first_done is not None and late_relay and all(":" in ip for ip in ips) else 1
     dones = [e for e in evs if e.kind == "sig" and e.f[1] == "gathering-done"]
     # completion: exactly once per gather call, in bounded time
     items = len(ips) * ncomp * ((1 if stun else 0) + len(turns))
@@ -811,8 +821,9 @@ def oracle_gather(evs, meta):
         nxt = gathers[k + 1].t if k + 1 < len(gathers) else 10 ** 12
         d = [e for e in dones if g.t <= e.t < nxt or (e.t == g.t)]
         d = [e for e in dones if g.t <= e.t and e.t < nxt]
-        if len(d) != 1:
-            return "gathering started at t=%d announced completion %d times" % (g.t, len(d))
+        want = n_late if (k == len(gathers) - 1 and g.f[1] == "set_relay_info") else 1
+        if len(d) != want:
+            return "gathering started at t=%d announced completion %d times%s" % (g.t, len(d), "" if want == 1 else " for %d zero-item runs" % want)
         if d[0].t - g.t > bound:
             return "gathering started at t=%d completed only at t=%d (bound %d ms for %d discovery items)" % (g.t, d[0].t, bound, items)
         phases.append((g.t, d[0].t, nxt))
@@ -831,9 +842,10 @@ def oracle_gather(evs, meta):
                     exp.append((1, "198.51.%s.%s" % (cc, e_), ip))
             if stun == "sameip":
                 for ip in ips:
-                    exp.append((1, ip, ip))       # mapped address = the host's IP with another port: not redundant, a server reflexive candidate
+                    if (":" in ip) == bool(meta.get("stun_v6")):       # the server is asked from the addresses of its own family only
+                        exp.append((1, ip, ip))       # mapped address = the host's IP with another port: not redundant, a server reflexive candidate
             for k, m in enumerate(turns if t0 == phases[0][0] else meta["turns2"]):
-                if m in TURN_OK:
+                if m in TURN_OK and any(":" not in ip for ip in ips):      # the (IPv4) relay servers are asked from IPv4 addresses only
                     exp.append((3, "10.9.%d.1" % (k + 1), None))
             gs = sorted((t, ip) for t, ip, b in got)
             es = sorted((t, ip) for t, ip, b in exp)
